@@ -51,6 +51,10 @@ Notation TPstep := (TPstep g n root Xc).
 Notation TPtop := (TPtop g n root Xc).
 Notation TPj := (TPj g n root Xc).
 Notation TPref := (TPref g n root Xc).
+Notation TPstepA := (TPstepA g n root Xc).
+Notation TPtopA := (TPtopA g n root Xc).
+Notation TPjA := (TPjA g n root Xc).
+Notation TPrefA := (TPrefA g n root Xc).
 Notation cb_ok := (cb_ok g n root).
 
 (* ---------------------------------------------------------------- the target of a node *)
@@ -116,30 +120,39 @@ Qed.
 Lemma VCT_worse : forall st, TPtop st true -> TPstep st.
 Proof. intros st [H _]. exact H. Qed.
 
-Lemma VCT_jstart : forall st top, TPstep st -> last_opt (s_path st) = Some top -> TPj st top.
+Lemma VCT_jstartA : forall anc st top, TPstepA anc st -> last_opt (s_path st) = Some top -> TPjA anc st top.
 Proof.
-  intros st top (anc & HS & HC & HT & HCb) E. exists anc.
+  intros anc st top (HS & HC & HT & HCb) E.
   split; [exact HS|]. split; [exact HC|]. split; [|split; [|exact HCb]].
   - intros HN. rewrite HN in E. discriminate.
   - apply HT. exact E.
 Qed.
 
+Lemma VCT_jstart : forall st top, TPstep st -> last_opt (s_path st) = Some top -> TPj st top.
+Proof. intros st top (anc & H) E. exists anc. apply VCT_jstartA; assumption. Qed.
+
 Lemma stack_ok_lengths : forall anc path choices, stack_ok anc path choices ->
   length anc = length path /\ length choices = length path.
 Proof. intros anc path choices (H1 & H2 & _). split; assumption. Qed.
 
-Lemma VCT_push : forall st, TPtop st false -> TPstep (push_step st).
+Definition push_anc (anc : list (list acell)) (st : sstate) : list (list acell) :=
+  match first_big (p_cells (s_ps st)) 0 with
+  | Some _ => anc ++ [p_cells (s_ps st)]
+  | None => anc
+  end.
+
+Lemma VCT_pushA : forall anc st, TPtopA anc st false -> TPstepA (push_anc anc st) (push_step st).
 Proof.
-  intros st [(anc & HS & HC & HT & HCb) [Hsk HW]]. destruct (HW eq_refl) as [HU HD]. clear HW.
-  unfold push_step. destruct (first_big (p_cells (s_ps st)) 0) as [[e sz]|] eqn:EB.
-  2:{ exists anc. split; [exact HS|]. split; [exact HC|]. split; [exact HT|exact HCb]. }
+  intros anc st [(HS & HC & HT & HCb) [Hsk HW]]. destruct (HW eq_refl) as [HU HD]. clear HW.
+  unfold push_step, push_anc. destruct (first_big (p_cells (s_ps st)) 0) as [[e sz]|] eqn:EB.
+  2:{ split; [exact HS|]. split; [exact HC|]. split; [exact HT|exact HCb]. }
   rewrite Hsk in HC. destruct HC as (HP & HN & HA & HX & Hage & Hages & HCh).
   destruct HS as (HL1 & HL2 & HNo & HCn & HCo).
   set (L := length (s_path st)) in *. set (cells := p_cells (s_ps st)) in *.
   assert (Hnode : node_ok L cells).
   { constructor; try assumption. eauto. }
   destruct (first_big_spec _ _ _ _ HN EB) as (b & c & a & Ecs & HSb & Hsz & H2 & He & Hb).
-  exists (anc ++ [cells]). cbn [set_skip set_stack s_path s_choices s_skip s_ps]. split; [|split; [|split]].
+  unfold SearchInvT.TPstepA. cbn [set_skip set_stack s_path s_choices s_skip s_ps]. split; [|split; [|split]].
   - (* stack_ok *)
     split; [rewrite !app_length; simpl; lia|]. split; [rewrite !app_length; simpl; lia|]. split; [|split].
     + intros k P HkP. destruct (Nat.lt_ge_cases k (length anc)) as [Hk|Hk].
@@ -181,6 +194,11 @@ Proof.
     unfold top_ok. rewrite last_opt_app. exists e, sz. split; [exact EB|]. split; [|split; [lia|discriminate]].
     rewrite last_opt_app. f_equal. lia.
   - exact HCb.
+Qed.
+
+Lemma VCT_push : forall st, TPtop st false -> TPstep (push_step st).
+Proof.
+  intros st [(anc & H) [Hsk HW]]. exists (push_anc anc st). apply VCT_pushA. split; [exact H|]. split; assumption.
 Qed.
 
 (* ---------------------------------------------------------------- popping the stack *)
@@ -267,23 +285,30 @@ Proof.
     unfold undo_sv. destruct st; simpl in *; subst; reflexivity.
 Qed.
 
-Lemma TPstep_ext : forall st st', s_ps st' = s_ps st -> s_path st' = s_path st -> s_choices st' = s_choices st ->
-  s_skip st' = s_skip st -> s_cb st' = s_cb st -> s_cbPerm st' = s_cbPerm st -> TPstep st -> TPstep st'.
+Lemma TPstepA_ext : forall anc st st', s_ps st' = s_ps st -> s_path st' = s_path st -> s_choices st' = s_choices st ->
+  s_skip st' = s_skip st -> s_cb st' = s_cb st -> s_cbPerm st' = s_cbPerm st -> TPstepA anc st -> TPstepA anc st'.
 Proof.
-  intros st st' E1 E2 E3 E4 E5 E6 (anc & HS & HC & HT & HCb). exists anc. unfold cb_ok in *.
+  intros anc st st' E1 E2 E3 E4 E5 E6 (HS & HC & HT & HCb). unfold SearchInvT.TPstepA, cb_ok in *.
   rewrite E1, E2, E3, E4, E5, E6. auto.
 Qed.
 
-Lemma VCT_jexit : forall st st1, TPj st 0 -> undo st = Ok st1 -> TPstep (pop st1).
+Lemma TPstep_ext : forall st st', s_ps st' = s_ps st -> s_path st' = s_path st -> s_choices st' = s_choices st ->
+  s_skip st' = s_skip st -> s_cb st' = s_cb st -> s_cbPerm st' = s_cbPerm st -> TPstep st -> TPstep st'.
+Proof. intros st st' E1 E2 E3 E4 E5 E6 (anc & H). exists anc. eapply TPstepA_ext; eassumption. Qed.
+
+Lemma VCT_jexitA : forall anc st st1, TPjA anc st 0 -> undo st = Ok st1 -> TPstepA (removelast anc) (pop st1).
 Proof.
-  intros st st1 (anc & HS & HC & Hne & HT & HCb) HU.
+  intros anc st st1 (HS & HC & Hne & HT & HCb) HU.
   destruct (undo_T _ _ _ HS HC Hne HU) as (P & EP & HN & ->).
-  exists (removelast anc). unfold pop. cbn [set_stack set_skip set_ps s_path s_choices s_skip s_ps].
+  unfold SearchInvT.TPstepA, pop. cbn [set_stack set_skip set_ps s_path s_choices s_skip s_ps].
   split; [apply stack_pop; exact HS|]. split; [|split].
   - rewrite removelast_length. eapply cur_pop; eassumption.
   - intros top Htop. eapply top_pop; eassumption.
   - exact HCb.
 Qed.
+
+Lemma VCT_jexit : forall st st1, TPj st 0 -> undo st = Ok st1 -> TPstep (pop st1).
+Proof. intros st st1 (anc & H) HU. exists (removelast anc). eapply VCT_jexitA; eassumption. Qed.
 
 (* ---------------------------------------------------------------- one iteration of jLoop *)
 
@@ -305,7 +330,7 @@ Lemma split_T : forall L P cb fl v s j w ps', 1 <= L -> node_ok (L - 1) P ->
   split_bin g n m cb fl (mkP P (zl L - 1)%Z v s) (fns P + j) = Ok (w, ps') ->
   Permutation (order_of (p_cells ps')) (seq 0 n) /\ nonempty (p_cells ps') /\ casc (p_cells ps') /\
   Xc (p_cells ps') /\ p_age ps' = zl L /\ ages_le (zl L) (p_cells ps') /\ child_of L (p_cells ps') P /\
-  exists b c a x, target (erase P) = Some (b, c, a) /\ In x c /\ erase (p_cells ps') = indiv b c a x.
+  exists b c a x, target (erase P) = Some (b, c, a) /\ nth_error c j = Some x /\ erase (p_cells ps') = indiv b c a x.
 Proof.
   intros L P cb fl v s j w ps' HL HN (e & sz & HB & Hj) HSp.
   destruct (node_target _ _ HN) as (b & c & a & e' & sz' & EP & HS & Hb & Hsz & H2 & HB' & He & HT & HLoc).
@@ -326,16 +351,16 @@ Proof.
     - eapply V_R; [|exact HV]. apply R_refl. replace L with (S (L - 1)) by lia. apply ages_neq. exact HAg.
     - rewrite Hcs, <- Hb. rewrite EP. rewrite !firstn_app_exact. apply same_cell_refl.
     - rewrite Hcs, <- Hb. eexists. split; [apply nth_error_app_exact|]. split; [reflexivity|exists x; reflexivity]. }
-  exists (erase b), (cverts c), (erase a), x. split; [exact HT|]. split; [eapply nth_error_In; exact Hx|].
+  exists (erase b), (cverts c), (erase a), x. split; [exact HT|]. split; [exact Hx|].
   rewrite Hcs. unfold indiv. rewrite erase_app. simpl. f_equal. f_equal. f_equal. f_equal.
   apply remove_at_filter; [|exact Hx]. apply asc_NoDup.
   rewrite EP in HAs. apply Forall_app in HAs. destruct HAs as [_ HAs]. inversion HAs; subst. assumption.
 Qed.
 
-Lemma jbody_T : forall st j st' ok, TPj st (S j) -> jbody g n m j st = Ok (st', ok) ->
-  if ok then TPref st' else TPj st' j.
+Lemma jbody_TA : forall anc st j st' ok, TPjA anc st (S j) -> jbody g n m j st = Ok (st', ok) ->
+  if ok then TPrefA anc st' else TPjA anc st' j.
 Proof.
-  intros st j st' ok (anc & HS & HC & Hne & HT & HCb) HJ.
+  intros anc st j st' ok (HS & HC & Hne & HT & HCb) HJ.
   destruct (jbody_cases _ _ _ _ _ _ _ HJ) as (st1 & pos & v & fo & b1 & HU & HLc & Hv & Hh1 & Hrest).
   destruct (undo_T _ _ _ HS HC Hne HU) as (P & EP & HN & Est1).
   set (L := length (s_path st)) in *.
@@ -353,8 +378,8 @@ Proof.
           (fst (undo_sv (s_skip st) (fns P) (p_spl (s_ps st)) (p_value (s_ps st))))) in *.
   assert (Eps1 : s_ps st1 = ps1) by (rewrite Est1; reflexivity).
   assert (HSkip : forall stx, s_ps stx = ps1 -> s_path stx = s_path st -> s_choices stx = set_last (s_choices st) pos ->
-            s_skip stx = true -> s_cb stx = s_cb st -> s_cbPerm stx = s_cbPerm st -> TPj stx j).
-  { intros stx E1 E2 E3 E4 E5 E6. exists anc. unfold cb_ok. rewrite E1, E2, E3, E4, E5, E6.
+            s_skip stx = true -> s_cb stx = s_cb st -> s_cbPerm stx = s_cbPerm st -> TPjA anc stx j).
+  { intros stx E1 E2 E3 E4 E5 E6. unfold SearchInvT.TPjA, cb_ok. rewrite E1, E2, E3, E4, E5, E6.
     split.
     - destruct HS as (G1 & G2 & G3 & G4 & G5).
       split; [exact G1|]. split; [rewrite set_last_length; exact G2|]. split; [exact G3|]. split; [exact G4|].
@@ -392,12 +417,20 @@ Proof.
   assert (G4 : s_path st5 <> []).
   { rewrite F1. intros E. apply (f_equal (@length nat)) in E. rewrite set_last_length in E. simpl in E. fold L in E. lia. }
   destruct w; cbn [negb].
-  - exists anc. split; [exact G1|]. split; [exact G2|]. split; [exact G4|]. split; [exact G3|exact F5].
+  - split; [exact G1|]. split; [exact G2|]. split; [exact G4|]. split; [exact G3|exact F5].
   - split; [|split; [exact F3|]].
-    + exists anc. split; [exact G1|]. split; [exact G2|]. split; [|exact F5].
+    + split; [exact G1|]. split; [exact G2|]. split; [|exact F5].
       intros top Htop. rewrite F1, set_last_last in Htop by exact Hne. inversion Htop; subst top. exact G3.
-    + exists (erase P), bb, cc, aa, x. split; [apply (no_desc _ _ _ _ _ _ HN)|]. split; [exact K7|]. split; [exact K8|].
-      exact K9.
+    + exists P, bb, cc, aa, x, j. split; [exact EP|]. split; [exact K7|].
+      split; [rewrite F1; apply set_last_last; exact Hne|]. split; [exact K8|exact K9].
+Qed.
+
+Lemma jbody_T : forall st j st' ok, TPj st (S j) -> jbody g n m j st = Ok (st', ok) ->
+  if ok then TPref st' else TPj st' j.
+Proof.
+  intros st j st' ok (anc & H) HJ. pose proof (jbody_TA anc st j st' ok H HJ) as HR. destruct ok.
+  - eapply TPrefA_ref. exact HR.
+  - exists anc. exact HR.
 Qed.
 
 Lemma VCT_jcont : forall st j st', TPj st (S j) -> jbody g n m j st = Ok (st', false) -> TPj st' j.
@@ -408,6 +441,24 @@ Proof. intros st j st' H HJ. apply (jbody_T st j st' true H HJ). Qed.
 
 (* ---------------------------------------------------------------- the refinement after a step *)
 
+Lemma VCT_refineA : forall anc st w ps', TPrefA anc st ->
+  refine_s g n m (s_cb st) (s_fl st) (s_ps st) = Ok (w, ps') -> TPtopA anc (set_ps st ps') w.
+Proof.
+  intros anc st w ps' [(HS & HC & HT & HCb) [Hsk (Pn & b & c & a & x & j & HP & HTg & Hj & Hx & HE)]] HR.
+  destruct (refine_s_spec _ _ _ _ _ _ _ _ HR) as (HV & Hage & HW).
+  rewrite Hsk in HC. destruct HC as (K1 & K2 & K3 & KX & K4 & K5 & K6).
+  split; [|split; [exact Hsk|]].
+  - unfold SearchInvT.TPstepA. cbn [set_ps s_path s_choices s_skip s_ps]. split; [exact HS|]. split; [|split; [exact HT|exact HCb]].
+    rewrite Hsk. split; [eapply perm_trans; [eapply V_order; exact HV|exact K1]|].
+    split; [eapply V_nonempty; eassumption|]. split; [eapply V_casc; eassumption|].
+    split; [eapply Xc_V; eassumption|].
+    split; [rewrite Hage; exact K4|]. split; [eapply V_ages; [exact HV|rewrite K4; lia|exact K5]|].
+    destruct (last_opt anc) as [P|]; [|exact I]. eapply child_of_V; [exact K6|]. rewrite <- K4. exact HV.
+  - intros Hw. destruct (HW Hw) as [HU HRf]. cbn [set_ps s_ps]. split; [exact HU|].
+    rewrite HE in HRf. destruct HS as (_ & _ & HNo & _). rewrite last_opt_nth in HP.
+    eapply rdesc_snoc; [apply (no_desc _ _ _ _ _ _ (HNo _ _ HP))|exact HTg|eapply nth_error_In; exact Hx|exact HRf].
+Qed.
+
 Lemma VCT_refine : forall st w ps', TPref st ->
   refine_s g n m (s_cb st) (s_fl st) (s_ps st) = Ok (w, ps') -> TPtop (set_ps st ps') w.
 Proof.
@@ -415,7 +466,7 @@ Proof.
   destruct (refine_s_spec _ _ _ _ _ _ _ _ HR) as (HV & Hage & HW).
   rewrite Hsk in HC. destruct HC as (K1 & K2 & K3 & KX & K4 & K5 & K6).
   split; [|split; [exact Hsk|]].
-  - exists anc. cbn [set_ps s_path s_choices s_skip s_ps]. split; [exact HS|]. split; [|split; [exact HT|exact HCb]].
+  - exists anc. unfold SearchInvT.TPstepA. cbn [set_ps s_path s_choices s_skip s_ps]. split; [exact HS|]. split; [|split; [exact HT|exact HCb]].
     rewrite Hsk. split; [eapply perm_trans; [eapply V_order; exact HV|exact K1]|].
     split; [eapply V_nonempty; eassumption|]. split; [eapply V_casc; eassumption|].
     split; [eapply Xc_V; eassumption|].
@@ -480,14 +531,18 @@ Proof.
     + apply I3; [lia|exact Htop].
 Qed.
 
-Lemma back_jump_T : forall st bp st', TPstep st -> s_skip st = false -> back_jump st bp = Ok st' -> TPstep st'.
+Lemma back_jump_TA : forall anc st bp st', TPstepA anc st -> s_skip st = false -> back_jump st bp = Ok st' ->
+  TPstepA (firstn (length (s_path st')) anc) st' /\ length (s_path st') <= length (s_path st) /\
+  s_path st' = firstn (length (s_path st')) (s_path st).
 Proof.
-  intros st bp st' (anc & HS & HC & HT & HCb) Hsk HB.
+  intros anc st bp st' (HS & HC & HT & HCb) Hsk HB.
   destruct (back_jump_cases _ _ _ HB) as (keep & ps' & HK & HD & ->).
   destruct (h1_keep_bounds _ _ _ HK) as [Hk1 Hk2]. rewrite Hsk in HC.
   destruct (deage_n_T (length (s_path st) - keep) anc _ _ _ _ HS HC ltac:(lia) HD) as (I1 & I2 & I3).
   replace (length (s_path st) - (length (s_path st) - keep)) with keep in * by lia.
-  exists (firstn keep anc). cbn [set_stack set_ps s_path s_choices s_skip s_ps]. rewrite Hsk.
+  cbn [set_stack set_ps s_path]. rewrite firstn_length. replace (Nat.min keep (length (s_path st))) with keep by lia.
+  split; [|split; [lia|reflexivity]].
+  unfold SearchInvT.TPstepA. cbn [set_stack set_ps s_path s_choices s_skip s_ps]. rewrite Hsk.
   split; [exact I1|]. split; [|split; [|exact HCb]].
   - rewrite firstn_length. replace (Nat.min keep (length (s_path st))) with keep by lia. exact I2.
   - intros top Htop. destruct (Nat.eq_dec keep (length (s_path st))) as [E|E].
@@ -498,6 +553,9 @@ Proof.
       rewrite <- Hsk. apply HT. exact Htop.
     + apply I3; [lia|exact Htop].
 Qed.
+
+Lemma back_jump_T : forall st bp st', TPstep st -> s_skip st = false -> back_jump st bp = Ok st' -> TPstep st'.
+Proof. intros st bp st' (anc & H) Hsk HB. eexists. apply (back_jump_TA anc st bp st' H Hsk HB). Qed.
 
 (* ---------------------------------------------------------------- a leaf *)
 
@@ -518,20 +576,32 @@ Proof.
   intros st gam st' H. destruct (record_gen_cases _ _ _ _ H) as (d & b & _ & [(_ & _ & ->)|(_ & ->)]); repeat split.
 Qed.
 
-Lemma VCT_leaf : forall st st', TPtop st false -> length (p_cells (s_ps st)) = n ->
-  leaf_step n m st = Ok st' -> TPstep st'.
+Lemma firstn_same_length : forall (A B : Type) (l : list A) (l' : list B), length l = length l' -> firstn (length l') l = l.
+Proof. intros A B l l' H. rewrite <- H. apply firstn_all. Qed.
+
+Lemma VCT_leafA : forall anc st st', TPtopA anc st false -> length (p_cells (s_ps st)) = n ->
+  leaf_step n m st = Ok st' ->
+  TPstepA (firstn (length (s_path st')) anc) st' /\ length (s_path st') <= length (s_path st) /\
+  s_path st' = firstn (length (s_path st')) (s_path st).
 Proof.
-  intros st st' [HStep [Hsk HW]] Hlen HLf. destruct (HW eq_refl) as [HU HD]. clear HW.
+  intros anc st st' [HStep [Hsk HW]] Hlen HLf. destruct (HW eq_refl) as [HU HD]. clear HW.
+  assert (HLa : length anc = length (s_path st)) by (destruct HStep as ((H & _) & _); exact H).
+  assert (Same : forall stx, s_ps stx = s_ps st -> s_path stx = s_path st -> s_choices stx = s_choices st ->
+             s_skip stx = s_skip st -> cb_ok stx ->
+             TPstepA (firstn (length (s_path stx)) anc) stx /\ length (s_path stx) <= length (s_path st) /\
+             s_path stx = firstn (length (s_path stx)) (s_path st)).
+  { intros stx E1 E2 E3 E4 HCbx. rewrite E2. rewrite (firstn_same_length _ _ anc (s_path st) HLa), firstn_all.
+    split; [|split; [lia|reflexivity]]. destruct HStep as (HS & HCu & HT & _).
+    unfold SearchInvT.TPstepA. rewrite E1, E2, E3, E4. auto. }
   destruct (leaf_step_cases _ _ _ _ HLf) as [(HC & cbInv & HI & ->)|[(HC & gam & d & b & st1 & HG & HO & HRg & HBj)|
     [(HC & HC2 & gam & st1 & HG & HRg & HBj)|(HC & HC2 & ->)]]].
   - (* new best leaf *)
-    destruct HStep as (anc & HS & HCu & HT & HCb). exists anc.
     assert (F : forall x, s_path (new_best n m (bump st) x) = s_path st /\ s_choices (new_best n m (bump st) x) = s_choices st /\
                s_skip (new_best n m (bump st) x) = s_skip st /\ s_ps (new_best n m (bump st) x) = s_ps st /\
                s_cbPerm (new_best n m (bump st) x) = copy_into (s_cbPerm st) (order_of (p_cells (s_ps st)))).
     { intros x. unfold new_best. destruct (s_count (bump st) =? 1); repeat split. }
-    destruct (F cbInv) as (F1 & F2 & F3 & F4 & F5). rewrite F1, F2, F3, F4.
-    split; [exact HS|]. split; [exact HCu|]. split; [exact HT|].
+    destruct (F cbInv) as (F1 & F2 & F3 & F4 & F5). apply Same; try assumption.
+    destruct HStep as (HS & HCu & HT & HCb).
     destruct HCb as [HCb1 _]. rewrite Hsk in HCu. destruct HCu as (K1 & K2 & _).
     assert (HLo : length (order_of (p_cells (s_ps st))) = n) by (rewrite (Permutation_length K1); apply seq_length).
     unfold cb_ok. rewrite F5. split; [rewrite copy_into_length; exact HCb1|]. intros _.
@@ -540,14 +610,25 @@ Proof.
     + change (verts (erase (p_cells (s_ps st)))) with (order_of (p_cells (s_ps st))).
       apply copy_into_same_length. rewrite HLo. exact HCb1.
   - destruct (record_gen_fields _ _ _ HRg) as (E1 & E2 & E3 & E4 & E5 & E6 & _).
-    eapply back_jump_T; [|rewrite E4; exact Hsk|exact HBj].
-    eapply TPstep_ext; [exact E1|exact E2|exact E3|exact E4|exact E5|exact E6|].
-    eapply TPstep_ext; [| | | | | |exact HStep]; reflexivity.
+    assert (HS1 : TPstepA anc st1).
+    { eapply TPstepA_ext; [exact E1|exact E2|exact E3|exact E4|exact E5|exact E6|].
+      eapply TPstepA_ext; [| | | | | |exact HStep]; reflexivity. }
+    destruct (back_jump_TA anc st1 _ st' HS1 ltac:(rewrite E4; exact Hsk) HBj) as (B1 & B2 & B3).
+    rewrite E2 in B2, B3. cbn in B2, B3. auto.
   - destruct (record_gen_fields _ _ _ HRg) as (E1 & E2 & E3 & E4 & E5 & E6 & _).
-    eapply back_jump_T; [|rewrite E4; exact Hsk|exact HBj].
-    eapply TPstep_ext; [exact E1|exact E2|exact E3|exact E4|exact E5|exact E6|].
-    eapply TPstep_ext; [| | | | | |exact HStep]; reflexivity.
-  - eapply TPstep_ext; [| | | | | |exact HStep]; reflexivity.
+    assert (HS1 : TPstepA anc st1).
+    { eapply TPstepA_ext; [exact E1|exact E2|exact E3|exact E4|exact E5|exact E6|].
+      eapply TPstepA_ext; [| | | | | |exact HStep]; reflexivity. }
+    destruct (back_jump_TA anc st1 _ st' HS1 ltac:(rewrite E4; exact Hsk) HBj) as (B1 & B2 & B3).
+    rewrite E2 in B2, B3. cbn in B2, B3. auto.
+  - apply Same; try reflexivity. destruct HStep as (_ & _ & _ & HCb). exact HCb.
+Qed.
+
+Lemma VCT_leaf : forall st st', TPtop st false -> length (p_cells (s_ps st)) = n ->
+  leaf_step n m st = Ok st' -> TPstep st'.
+Proof.
+  intros st st' [(anc & H) [Hsk HW]] Hlen HLf. eexists.
+  apply (VCT_leafA anc st st' (conj H (conj Hsk HW)) Hlen HLf).
 Qed.
 
 Lemma VCT_done : forall st, TPstep st -> last_opt (s_path st) = None -> cb_ok st.
